@@ -3,7 +3,6 @@ package props
 import (
 	"encoding/json"
 	"fmt"
-	"reflect"
 	"testing"
 
 	"github.com/Breeze0806/gobinlog"
@@ -134,7 +133,7 @@ func checkC08(c *StabilityCase) error {
 				} else {
 					want = snap.Events[ev].RowValues[row].Columns[col]
 				}
-				if herr == nil && !reflect.DeepEqual(cd, want) {
+				if herr == nil && !colEqual(cd, want) {
 					herr = fmt.Errorf("tx %d event %d row %d col %d: column changed from %+v to %+v when other columns of the delivery were overwritten", k, ev, row, col, *want, *cd)
 				}
 				scribbleCol(cd)
@@ -173,7 +172,7 @@ func checkC08(c *StabilityCase) error {
 				want = cloneTx(snaps[k])
 				eachData(want, func(_, _, _, _ int, cd *gobinlog.ColumnData) { scribbleCol(cd) })
 			}
-			if !reflect.DeepEqual(tx, want) {
+			if !txEqual(tx, want) {
 				a, _ := json.Marshal(want)
 				b, _ := json.Marshal(tx)
 				return fmt.Errorf("%s: retained transaction %d changed:\n was: %.500s\n now: %.500s", when, k, a, b)
